@@ -54,6 +54,8 @@ func (r *Run) clientAssertVariant(cs *ClientSpec, v string) (map[string]interfac
 		return map[string]interface{}{"sub": "-"}, MustNot
 	case "sub_number":
 		return map[string]interface{}{"sub": 12345}, MustNot
+	case "sub_list":
+		return map[string]interface{}{"sub": []string{cs.ID}}, MustNot
 	case "aud_wrong":
 		return map[string]interface{}{"aud": "https://as.sim/other"}, MustNot
 	case "aud_missing":
@@ -92,7 +94,7 @@ func (r *Run) clientAssertVariant(cs *ClientSpec, v string) (map[string]interfac
 	return nil, Unspec
 }
 
-var clientAssertVariants = []string{"ok", "ok", "ok", "aud_array", "wrong_key", "other_clients_key", "alg_not_registered", "alg_ps256", "alg_none", "alg_hs256", "iss_wrong", "iss_missing",
+var clientAssertVariants = []string{"ok", "ok", "ok", "aud_array", "wrong_key", "other_clients_key", "alg_not_registered", "alg_ps256", "alg_none", "alg_hs256", "iss_wrong", "iss_missing", "sub_list",
 	"sub_wrong", "sub_missing", "sub_number", "aud_wrong", "aud_missing", "aud_prefix", "expired", "exp_just_past", "expired_45s", "expired_long", "exp_soon", "exp_zero", "exp_missing", "exp_string", "exp_negative",
 	"jti_missing", "jti_empty", "jti_number", "kid_unknown", "kid_absent", "replay", "replay", "same_jti_new_signature"}
 
@@ -126,6 +128,9 @@ func (r *Run) opClientAssert(st Step) {
 			return
 		}
 		assertion, jti = r.lastAssertion[cs.ID], r.lastJTI[cs.ID]
+		if e, err := time.Parse(time.RFC3339Nano, r.lastAssertion[cs.ID+"#exp"]); err == nil {
+			r.assertExp = e
+		}
 		exp = Unspec
 		if rec := r.jtiTable()[jti]; rec != nil && rec.accepted > 0 {
 			exp = MustNot // accepted before: its jti was seen (or the assertion has expired by now)
@@ -158,6 +163,10 @@ func (r *Run) opClientAssert(st Step) {
 		r.assertExp = now.Add(5 * time.Minute)
 		if e, ok := over["exp"].(int64); ok {
 			r.assertExp = time.Unix(e, 0)
+		}
+		if exp == Must {
+			// the expiry belongs to THIS assertion: a later replay of it is remembered until then, whatever other clients presented since
+			r.lastAssertion[cs.ID+"#exp"] = r.assertExp.Format(time.RFC3339Nano)
 		}
 	}
 	form := url.Values{"grant_type": {"client_credentials"}, "scope": {"photos"},
@@ -428,9 +437,12 @@ func init() {
 		for len(steps) < n {
 			switch t.Weighted([]int{40, 35, 10, 6, 6}) {
 			case 0:
-				ca := Step{Op: "client_assert", C: t.Intn(2), V: t.Pick(clientAssertVariants)}
+				ca := Step{Op: "client_assert", C: t.Intn(2), V: t.Pick(clientAssertVariants), P: map[string]string{}}
 				if t.Chance(25) {
-					ca.P = map[string]string{"net_jwks": t.Pick([]string{"drop", "5xx", "delay", "stale", "stale"})}
+					ca.P["net_jwks"] = t.Pick([]string{"drop", "5xx", "delay", "stale", "stale"})
+				}
+				if t.Chance(40) {
+					ca.P["with_client_id"] = "1" // client_id may accompany the assertion (RFC 7521 4.2); the claims are checked all the same
 				}
 				steps = append(steps, ca)
 			case 1:
